@@ -67,14 +67,16 @@ FIXED_MESSAGES = {
     "NotPython": "raised by code named after a template file", "Undecodable": "raised by code named after a binary file",
     "SolPlain": "brings a solution", "SolNoDesc": "brings a solution without description", "SolNoTitle": "brings a solution without title",
     "LongContext": "the last of 1500 failures", "CircularContext": "context chain is a circle",
+    "AngleText": "no type List<int> in <module>, got <object at 0x1>",
     "TypeError": "unsupported operand type(s) in the handler's own code", "TypeErrorOnce": "a TypeError of the handler's body, first call only",
 }
 FREE_MESSAGE = ("Foreign", "Library", "WithCode", "Chained", "NoSource", "CodeMethod", "CodeNone", "CodeString", "CodeFloat", "CodeBig")
 ALL_KINDS = ["Foreign", "Library", "KeyboardInterrupt", "WithCode", "Chained", "TagOpen", "TagClose", "TagUnbalanced", "TagCloseOpen",
              "MultiLine", "NonAscii", "Backslash", "NoSource", "StrFails", "LibraryTagged", "LibraryBackslash", "LibraryCloseOpen",
              "CodeMethod", "CodeNone", "CodeString", "CodeFloat", "CodeBig", "TagFile", "NotPython", "Undecodable",
-             "SolPlain", "SolNoDesc", "SolNoTitle", "LongContext", "CircularContext", "TypeError", "TypeErrorOnce"]
+             "SolPlain", "SolNoDesc", "SolNoTitle", "LongContext", "CircularContext", "TypeError", "TypeErrorOnce", "AngleText"]
 SCOPES = ["top", "indent", "increment", "output"]
+FACTORIES = ["factory", "factory_fn", "factory_class", "factory_method", "factory_partial", "factory_callable"]
 
 
 # the code that raises lives in a small generated file of its own: the report highlights the whole source file of the
@@ -276,6 +278,23 @@ class Recorder(object):
         return value_of(self.outcome["v"])
 
 
+def _give(handler):
+    return handler
+
+
+class _Maker(object):
+    """a handler factory that is neither a function nor a class: its bound method make, or the object itself (__call__)"""
+
+    def __init__(self, handler):
+        self._h = handler
+
+    def make(self):
+        return self._h
+
+    def __call__(self):
+        return self._h
+
+
 class _Named(object):
     """stands for the command in a callback (CallbackHandler does not pass it on)"""
 
@@ -317,7 +336,14 @@ def build_app(slot, formatter=None, session=False):
         cfg = Cfg()
 
         def factory(app, args, input_stream, output_stream, error_stream):
-            fmt = formatter if formatter is not None else PlainFormatter()  # a shared one: see run_trace
+            if formatter is not None:
+                fmt = formatter  # a shared one: see run_trace
+            elif slot["env"].get("fmt") == "ansi":
+                from clikit.formatter import AnsiFormatter
+
+                fmt = AnsiFormatter()  # on a stream that takes no ANSI codes: the same plain text, through the other formatter
+            else:
+                fmt = PlainFormatter()
             io = IO(Input(input_stream), Output(output_stream, fmt), Output(error_stream, fmt))
             verb = {0: None, 1: F.VERBOSE, 2: F.VERY_VERBOSE, 3: F.DEBUG}[slot["env"]["verb"]]
             if verb is not None:
@@ -351,6 +377,25 @@ def build_app(slot, formatter=None, session=False):
             c.set_handler(CallbackHandler(cb))
         elif route == "factory":
             c.set_handler(lambda: handler)
+        elif route == "factory_fn":
+            def make_handler():
+                return handler
+
+            c.set_handler(make_handler)
+        elif route == "factory_class":
+            class HandlerClass(object):  # the class itself is the factory: clikit instantiates it
+                def handle(self, args, io, command):
+                    return handler.handle(args, io, command)
+
+            c.set_handler(HandlerClass)
+        elif route == "factory_method":
+            c.set_handler(_Maker(handler).make)  # a bound method
+        elif route == "factory_partial":
+            import functools
+
+            c.set_handler(functools.partial(_give, handler))
+        elif route == "factory_callable":
+            c.set_handler(_Maker(handler))  # an object with __call__ (and no handle of its own)
         elif route == "method":
             c.set_handler(MethodOnly(handler))
             c.set_handler_method("execute")
@@ -530,7 +575,8 @@ def random_env(rng):
         outcome = {"t": "raise", "v": "", "k": rng.choice(kinds)}
     env = {"app": app, "catch": rng.random() < 0.85, "verb": rng.choice([0, 0, 1, 2, 3]), "line": line,
            "pre": rng.choice(["none", "none", "pass", "raise"]), "listeners": listeners, "outcome": outcome,
-           "scope": rng.choice(SCOPES), "hroute": rng.choice(["object", "object", "factory", "method", "callback2", "callback3", "callbackv"]),
+           "scope": rng.choice(SCOPES), "hroute": rng.choice(["object", "object", "method", "callback2", "callback3", "callbackv"] + FACTORIES),
+           "fmt": rng.choice(["plain", "ansi"]),
            "exit": rng.random() < 0.15}
     msgs = {src: rng.choice(MESSAGES) for src in ("pre", "l1", "l2", "l3", "handler") if rng.random() < 0.8}
     return {"env": env, "msgs": msgs}
@@ -596,7 +642,7 @@ def _run(ctx):
         "Report, Return) for every environment of the product {plain, default application} x catching on/off x 4 verbosities x "
         "7 command lines (two commands, a sub-command, options, a missing argument, an unknown command) x pre-resolve listener "
         "{none, passes, raises} x up to 1/2 pre-handle listeners {pass, handle with 0 / '3' / 300, raise Foreign / tagged "
-        "library error / KeyboardInterrupt} x {at the top of the handler, inside io.indent / io.increment_indent / io.output.indent scopes} x handler configured as object / factory / other method name / CallbackHandler around a callback of 2, 3 or any number of parameters x terminate_after_run off / on (status via sys.exit) x 27 handler results (incl. Decimal, bytes, 2**70, objects with __int__ / __bool__) + 32 exception kinds (a TypeError of the handler's own body among them, also one that would succeed if the handler were invoked a second time) (incl. code named after a non-Python / binary file, exceptions bringing crashtest solutions without description / title, __context__ chains of 1500 links and circular ones) (6 of them carrying a `code` that is an int / a method / None / a string / a float / 70000), checking Contained, ZeroIff, Clamped, "
+        "library error / KeyboardInterrupt} x {at the top of the handler, inside io.indent / io.increment_indent / io.output.indent scopes} x handler configured as object / factory (lambda, function, class, bound method, functools.partial, callable object) / other method name / CallbackHandler around a callback of 2, 3 or any number of parameters x terminate_after_run off / on (status via sys.exit) x 27 handler results (incl. Decimal, bytes, 2**70, objects with __int__ / __bool__) + 32 exception kinds (a TypeError of the handler's own body among them, also one that would succeed if the handler were invoked a second time) (incl. code named after a non-Python / binary file, exceptions bringing crashtest solutions without description / title, __context__ chains of 1500 links and circular ones) (6 of them carrying a `code` that is an int / a method / None / a string / a float / 70000), checking Contained, ZeroIff, Clamped, "
         "Reported, Interrupt, CallsOK on every final state and termination under fairness; three sub-products (all outcomes x "
         "verbosities; all listener pairs; all lines x pre-resolve) are emitted and replayed on real applications (status, "
         "escaping exception, handler invocations with command name / arguments / options, whether anything was printed); "
@@ -641,6 +687,8 @@ def _run(ctx):
                 continue
             seen.add(key)
             case = {"env": beh["env"]}
+            if len(seen) % 2:  # every second environment of the model: the plain application's I/O uses the other formatter
+                case["env"] = dict(beh["env"], fmt="ansi")
             ev = run_case(case)
             ctx.count()
             if nontrivial(beh["env"]):
